@@ -8,7 +8,11 @@
 package zzverif
 
 import (
+	"crypto/sha1"
+	"encoding/binary"
 	"encoding/json"
+
+	"github.com/dgryski/go-wyhash"
 	"fmt"
 	"math"
 	"os"
@@ -166,6 +170,16 @@ func Thorough() bool             { return os.Getenv("VERIF_TIER") == "thorough" 
 func LenAny(x any) int           { return 0 }
 func SwapAny(x any, i, j int)    {}
 func UF64(name string, b any) uint64 { return 0 }
+
+// UF32sha1 is the big-endian first word of sha1(s): natively the real hash, in the
+// engine the same uninterpreted-function term the modelled crypto/sha1.Sum yields.
+func UF32sha1(s string) uint32 {
+	sum := sha1.Sum([]byte(s))
+	return binary.BigEndian.Uint32(sum[:4])
+}
+
+// Wyhash is wyhash.Hash(s, seed): natively real, in the engine the UF of the modelled hash.
+func Wyhash(s string, seed uint64) uint64 { return wyhash.Hash([]byte(s), seed) }
 
 func Observe(name string, v any) {
 	var s string
